@@ -28,6 +28,9 @@ def _mk(eng, layout=True, ncommits=3, fix=None):
 
         def choice(self, name, n):
             return fix[name] if name in fix else real_choice(name, n)
+
+        def bool(self, name):
+            return fix[name] if name in fix else base.bool(name)
     eng = _E()
     d = scratch("c10")
     r = Repo.init_bare(d)
@@ -205,4 +208,123 @@ def checks(tier):
                         "dulwich.object_store.DiskObjectStore (re-open, lookup)"],
                bounds="graphs of 2 commits as above; optionally a multi-pack-index written before the operation (left stale by it); history objects (commits, tags) and content objects (trees, blobs) each symbolically loose / packed / both; refs as above",
                outside="alternates; more than one pre-existing pack (thorough)", time_budget=2400, tiers=q),
+    ]
+
+
+# ---------------------------------------------------------------------------------------------
+# (d) a reader running while another actor repacks never gets a spurious "missing object"
+_b10 = checks
+
+
+CALLS = {}
+
+
+def h_concurrent_reader(eng, op="repack", two=False, kmax=140, k2max=40, first=0, warm=0):
+    """two actors on one real repository: A reads every reachable object (separate Repo object, cold or warm pack
+    cache), B runs a maintenance operation; interleaved at file-system-call granularity (reads included) with
+    <= 1 (quick) / 2 preemptions at symbolic positions: A gets every object, byte-identical, and never a KeyError"""
+    from greenlet import getcurrent
+    from vf.interpose import Interposer
+    from vf.props.C08 import Sched
+    kmax = kmax if first == 1 else min(kmax, 40)
+    d, r, g, roots = _mk(eng, layout=True, ncommits=2, fix={"head": 1, "has_tag_ref": True, "branch_at": 1, "c0_tree": 0,
+                                                             "c1_tree": 1, "c1_p0": True, "tag_target": 0})
+    reader = None
+    try:
+        want = sorted(s for s in closure(g["adj"], roots) if s in g["by_id"])
+        if eng.bool("midx_written_before"):
+            if list(r.object_store.packs):
+                r.object_store.write_midx()
+            else:
+                eng.assume(False)
+        r.close()
+        r = Repo(d)
+        reader = Repo(d)
+        # warm: 0 cold reader, 1 pack list loaded, 2 one object already read
+        if warm >= 1:
+            list(reader.object_store.packs)
+        if warm == 2:
+            reader.object_store.get_raw(want[0])
+        # first: 0 = the reader is preempted first, 1 = the maintenance actor
+        k1 = eng.choice("preempt_first_at", kmax)
+        if two:
+            k2 = eng.choice("preempt_second_at", k2max // 3) * 3      # every third call of the other actor
+        else:
+            k2 = None
+        got = {}
+
+        def read_all():
+            for s in want:
+                try:
+                    got[s] = reader.object_store.get_raw(s)[1]
+                except KeyError as e:
+                    got[s] = e
+            return None
+
+        def maintain():
+            if op == "pack_loose":
+                r.object_store.pack_loose_objects()
+            elif op == "repack":
+                r.object_store.repack()
+            elif op == "gc0":
+                GC.garbage_collect(r, prune=True, grace_period=None)
+            else:
+                GC.garbage_collect(r)
+            return None
+        s = Sched(first, k1, k2)
+        MUT = ("open", "rename", "replace", "remove", "unlink", "rmdir", "mkdir", "link", "chmod")
+
+        def hook(i, name, path):
+            # partial-order reduction: what the reader can observe only changes at the maintenance actor's calls that
+            # create, rename or remove directory entries, so only those are preemption points of that actor; every
+            # call of the reader (reads included) is one
+            if s.actor_of.get(getcurrent()) == 1 and name not in MUT:
+                return
+            s.hook(i, name, path)
+        with Interposer(d, hook, wrap_reads=True):
+            res = s.run([read_all, maintain])
+        CALLS[(op, first)] = max(CALLS.get((op, first), 0), s.count.get(first, 0))
+        eng.assume(s.count.get(first, 0) > k1)
+        if k2 is not None:
+            eng.assume(s.count.get(1 - first, 0) > k2)
+        tag = f"[{op}; reader_cache={warm} first={'reader' if first == 0 else 'maintenance'} k1={k1} k2={k2}]"
+        eng.prove(res[1][0] == "ok", f"{tag} the maintenance operation itself completes: {res[1]}")
+        eng.prove(res[0][0] == "ok", f"{tag} the reader completes: {res[0]}")
+        for sha in want:
+            v = got.get(sha)
+            if isinstance(v, KeyError):
+                eng.fail(f"{tag} spurious missing object {sha[:8]!r} ({g['by_id'][sha].type_name!r}) for a reader while the "
+                         f"object exists throughout")
+            else:
+                eng.prove(v == g["by_id"][sha].as_raw_string(), f"{tag} reader got identical bytes")
+    finally:
+        if reader is not None:
+            reader.close()
+        r.close()
+        shutil.rmtree(d, ignore_errors=True)
+
+
+def checks(tier):
+    q = ("quick", "thorough")
+    ops = ("pack_loose", "repack", "gc0", "gc_default")
+    enc = ["dulwich.object_store.DiskObjectStore.get_raw/_update_pack_cache/_iter_loose/_get_loose_object",
+           "dulwich.object_store.PackBasedObjectStore.pack_loose_objects/repack", "dulwich.gc.garbage_collect", "dulwich.pack.Pack"]
+    return _b10(tier) + [
+        KCheck("C10d.concurrent_reader_1", h_concurrent_reader,
+               parts=[{"op": o, "first": f, "warm": w, "kmax": 64} for o in (ops if tier == "thorough" else ops[:3]) for f in (0, 1)
+                      for w in ((0, 1, 2) if tier == "thorough" else (0, 2))], encoded=enc,
+               bounds="graph of 2 commits (branch, tag ref, HEAD attached), history and content objects each loose / packed / both, "
+                      "optional multi-pack-index; a reader (cold, or one object already read; thorough: also pack list loaded) reads "
+                      "all reachable objects while pack_loose_objects / repack / gc without grace (thorough: also default gc) "
+                      "runs; 1 preemption at a symbolic position: any of the reader's first 40 file-system calls (reads "
+                      "included) or any of the maintenance actor's first 64 calls that create, rename or remove a directory entry",
+               outside="2 preemptions (thorough); alternates; several readers",
+               assumptions=["partial-order reduction: the reader's observations change only at the maintenance actor's "
+                            "create/rename/remove calls, so only those are its preemption points"], time_budget=2400, tiers=q),
+        KCheck("C10d.concurrent_reader", h_concurrent_reader,
+               parts=[{"op": o, "two": True, "first": f, "warm": w} for o in ("pack_loose", "repack") for f in (0, 1) for w in (0, 2)],
+               encoded=enc,
+               bounds="pack_loose_objects and repack, cold or warm reader, exactly 2 preemptions: the first at any of the first 140 "
+                      "preemption points of one actor (as in C10d.concurrent_reader_1), the second at every third of the first 39 of the other",
+               outside="3 or more preemptions; alternates; several readers", time_budget=6000, tiers=("thorough",)),
     ]
